@@ -3,8 +3,9 @@ from .opcheck import OperatorCheck
 
 class C04(OperatorCheck):
     id = "C04"
+    b1_full_q2 = False
     cfgs = ("lex-rc2", "lex-z3")
-    rule = ("E-in: same named scopes as C01, both back-ends; oracle: comparison of the lexicographically least "
+    rule = ("E-in: named scopes of C01 (quick: B1 x 89 semantic-class queries instead of all 264 syntactic ones), both back-ends; oracle: comparison of the lexicographically least "
             "per-layer falsification count vectors by brute force over worlds. The type-level query family "
             "(|V|<=2,|F|<=1 and |V|=1,|F|=2 world types per base) reaches ties between several minimum-cardinality "
             "sets with differing continuations; counters report pairs where W differs from lex.")
